@@ -33,7 +33,7 @@ type obs struct {
 }
 
 type step struct {
-	Op   string `json:"op"` // add | del | batch | backup
+	Op   string `json:"op"` // add | del | batch | backup | reopen
 	K    []int  `json:"k,omitempty"`
 	V    []int  `json:"v,omitempty"`
 	Adds []pair `json:"adds,omitempty"`
@@ -161,6 +161,16 @@ func (r *runner) exec(st *step, keys [][]byte) error {
 			}
 		}
 		st.Err = errClass(r.db.ExecuteBatch(b))
+	case "reopen":
+		// a session boundary: the tool ends (Close flushes, the write-ahead log is disabled) and a
+		// later run opens the same directory again, alternately the way the compiler (NewRDB) and
+		// the way ApplyDiff (NewUpdater) open it
+		st.Err = errClass(r.db.Close())
+		r.db = nil
+		r.useUp = !r.useUp
+		if err := r.open(); err != nil {
+			return fmt.Errorf("reopen: %w", err)
+		}
 	case "backup":
 		// dnsrocks-backuprdb works on a database directory that no writer has open
 		if err := r.db.Close(); err != nil {
@@ -225,6 +235,7 @@ var smallVals = [][]byte{
 }
 
 type gen struct {
+	pending []step // steps of a scripted sequence still to be issued (drain a key, then a boundary)
 	r     *hlib.Rng
 	keys  [][]byte
 	vals  [][]byte
@@ -250,9 +261,67 @@ func (g *gen) existing() ([]byte, []byte, bool) {
 	return k, vs[g.r.Intn(len(vs))], true
 }
 
-func (g *gen) genStep(bigBatch bool) step {
+// drain schedules the deletion of every value of one stored key, one Del at a time
+// (each but the last rewrites the key, the last removes it), then a session boundary;
+// mostly after an earlier boundary and one more write of that key.
+// Returns false when nothing is stored.
+func (g *gen) drain() bool {
+	k, _, ok := g.existing()
+	if !ok {
+		return false
+	}
+	vs := append([][]byte{}, g.state[string(k)]...)
+	if g.r.Chance(2, 3) {
+		// first let the present list reach the disk, then write the key once more in the new
+		// session: the key now has an older version in a table file and newer ones in memory
+		nv := g.val()
+		g.pending = append(g.pending, g.boundary(), step{Op: "add", K: hlib.Ints(k), V: hlib.Ints(nv)})
+		vs = append(vs, nv)
+	}
+	g.r.Shuffle(len(vs), func(i, j int) { vs[i], vs[j] = vs[j], vs[i] })
+	for _, v := range vs {
+		g.pending = append(g.pending, step{Op: "del", K: hlib.Ints(k), V: hlib.Ints(v)})
+	}
+	g.pending = append(g.pending, g.boundary())
+	// afterwards the key must be gone: deleting from it fails, adding starts a new list
+	if g.r.Chance(1, 2) {
+		g.pending = append(g.pending, step{Op: "del", K: hlib.Ints(k), V: hlib.Ints(vs[0])})
+	}
+	if g.r.Chance(1, 2) {
+		g.pending = append(g.pending, step{Op: "add", K: hlib.Ints(k), V: hlib.Ints(g.val())})
+	}
+	return true
+}
+
+func (g *gen) boundary() step {
+	if g.r.Chance(1, 4) {
+		return step{Op: "backup", Cont: g.r.Chance(1, 2)}
+	}
+	return step{Op: "reopen"}
+}
+
+func (g *gen) genStep(class string) step {
 	r := g.r
-	switch r.Pick([]int{12, 10, 10, 1}) {
+	bigBatch := class == "bigbatch"
+	if len(g.pending) > 0 {
+		st := g.pending[0]
+		g.pending = g.pending[1:]
+		return st
+	}
+	w := []int{12, 10, 10, 1, 2, 1}
+	if class == "sessions" {
+		w = []int{10, 6, 4, 1, 4, 5}
+	}
+	switch r.Pick(w) {
+	case 4:
+		return step{Op: "reopen"}
+	case 5:
+		if g.drain() {
+			return g.genStep(class)
+		}
+		return step{Op: "add", K: hlib.Ints(g.key()), V: hlib.Ints(g.val())}
+	}
+	switch r.Pick([]int{w[0], w[1], w[2], w[3]}) {
 	case 0:
 		return step{Op: "add", K: hlib.Ints(g.key()), V: hlib.Ints(g.val())}
 	case 1:
@@ -302,7 +371,7 @@ func newGen(r *hlib.Rng, tier string) (*gen, string, int) {
 	g := &gen{r: r, state: map[string][][]byte{}}
 	class := "small"
 	nsteps := 4 + r.Intn(13)
-	switch r.Pick([]int{12, 3, 2, 1}) {
+	switch r.Pick([]int{10, 3, 2, 1, 5}) {
 	case 0: // small alphabets
 		nk := 1 + r.Intn(4)
 		perm := make([]int, len(smallKeys))
@@ -342,6 +411,17 @@ func newGen(r *hlib.Rng, tier string) (*gen, string, int) {
 			g.vals = append(g.vals, r.Bytes(65536+r.Intn(3000), nil)) // third length byte
 		}
 		nsteps = 2 + r.Intn(6)
+	case 4: // several sessions over few keys: written, closed, changed and emptied, closed, read
+		class = "sessions"
+		nk := 1 + r.Intn(3)
+		for i := 0; i < nk; i++ {
+			g.keys = append(g.keys, smallKeys[i*3+r.Intn(2)])
+		}
+		nv := 2 + r.Intn(3)
+		for i := 0; i < nv; i++ {
+			g.vals = append(g.vals, smallVals[r.Intn(len(smallVals))])
+		}
+		nsteps = 10 + r.Intn(13)
 	default: // the empty key beside others
 		class = "emptykey"
 		g.keys = [][]byte{{}, []byte("a"), {0}}
@@ -415,7 +495,7 @@ func genCase(a *hlib.Args, n int, r *hlib.Rng) (c15case, error) {
 		c.Keys = append(c.Keys, hlib.Ints(k))
 	}
 	for i := 0; i < nsteps; i++ {
-		st := g.genStep(class == "bigbatch")
+		st := g.genStep(class)
 		if err := rn.exec(&st, g.keys); err != nil {
 			return c, fmt.Errorf("case %d step %d (%s): %w", n, i, st.Op, err)
 		}
